@@ -80,7 +80,9 @@ META = dict(
                 "fairFrom_of_scheduler_and_pool / wait_returns_scheduler_and_pool split fairness into a scheduler side and a pool side "
                 "(the interface to C09's no_stuck_task / pop_within_bound / fair_queued_task_started; the refinement between the two "
                 "models is not built); fair_execution_witness exhibits a concrete non-stuttering fair execution (root + two children, "
-                "one failing) satisfying all hypotheses."),
+                "one failing) satisfying all hypotheses; poolStartsFrom_of_C09 / wait_returns_with_C09_pool derive the pool side from "
+                "C09's fair_queued_task_started for executions coupled with a pool-level execution (PoolCoupling, a hypothesis; "
+                "queue_tracks_queued proves the queue component of the step-level simulation, reducing the hypothesis to PoolSyncFrom)."),
     level_note=("A change that moves the zero test of descendantFinished out of the critical section of its decrement (read after Unlock, "
                 "or in a second critical section) cannot be forced by a hook-point scheduler; it is refuted deterministically, hook-free, "
                 "by the regenerated facts zeroTestInsideCriticalSection / zeroTestInCriticalSectionOfTheDecrement (go/ast, every run) "
